@@ -306,6 +306,13 @@ def check_wrapper(run, pkg, wname, inner):
     ok_b = len(brk) == 1 and any(g == ("un", "not", snap) and pol for g, pol in brk[0].guards) and brk[0].seq > ce.seq
     run.ob("R-LOOPDOM", fq, "sentinel", ok_b, "the loop ends exactly when the reader returns the falsy sentinel", [show(g)[:40] for g, _ in brk[0].guards] if brk else "no break",
            witness=None if ok_b else "loop does not stop at EOF / stops early", loc=fi.loc())
+    if ok_b:
+        # `not snapshot` is a truthiness test: a frame object must be truthy whatever it holds
+        ci = pkg.cls("reader.reader_utils.SingleSnapshot")
+        falsy = [m for m in ("__bool__", "__len__") if m in ci.methods]
+        run.ob("R-LOOPDOM", fq, "sentinel-truthiness", not falsy, "the sentinel test relies on frame objects always being truthy: SingleSnapshot defines neither __bool__ nor __len__",
+               f"defines {falsy}" if falsy else "plain dataclass", witness=None if not falsy else
+               "a frame with NUMBER OF ATOMS 0 (empty dump group) is falsy: it and every later frame are silently dropped", loc=ci.module.relpath + f":{ci.node.lineno}")
     app = [e for e in it.events if e.kind == "call" and e.data["call"][1] == ".append" and e.loops == ce.loops]
     ok_a = len(app) == 1 and app[0].data["call"][2][1] == snap and app[0].seq > (brk[0].seq if brk else -1)
     run.ob("R-LOOPDOM", fq, "append", ok_a, "every frame read is appended once, in read order", f"{len(app)} appends",
